@@ -57,3 +57,30 @@ Definition all_gn_lints (v : gview) : list Z :=
 
 (* the issuerAltName copies of the five community / RFC rules, seen as the SAN rules applied to another list *)
 Definition as_san_view (v : gview) : nview := mkNview true (gv_tls v) (gv_ian_ext v) [] false (gv_ian_dns v).
+
+(* ---------- six lints that walk the raw GeneralNames: IA5 content of dNSNames and URIs, empty names ----------
+     e_ext_san_dns_not_ia5_string, e_ext_ian_dns_not_ia5_string, e_ext_san_uri_not_ia5, e_ext_ian_uri_not_ia5,
+     e_ext_san_empty_name, e_ext_ian_empty_name                                                    (rfc)
+   A GeneralNames value is the list of its members (tag number, content octets), in order. *)
+Record rview := mkRview {
+  rv_san_ext : bool;
+  rv_san : list (Z * bytes);
+  rv_ian_ext : bool;
+  rv_ian : list (Z * bytes)
+}.
+
+Definition not_ia5 (b : bytes) : bool := existsb (fun c => (127 <? c)%N) b.
+Definition tagged_not_ia5 (tag : Z) (ns : list (Z * bytes)) : bool :=
+  existsb (fun n => (fst n =? tag) && not_ia5 (snd n)) ns.
+Definition has_empty_name (ns : list (Z * bytes)) : bool :=
+  existsb (fun n => match snd n with [] => true | _ => false end) ns.
+
+Definition r_san_dns_not_ia5 (v : rview) : Z := verdict 6 (rv_san_ext v) (tagged_not_ia5 2 (rv_san v)).
+Definition r_ian_dns_not_ia5 (v : rview) : Z := verdict 6 (rv_ian_ext v) (tagged_not_ia5 2 (rv_ian v)).
+Definition r_san_uri_not_ia5 (v : rview) : Z := verdict 6 (rv_san_ext v) (tagged_not_ia5 6 (rv_san v)).
+Definition r_ian_uri_not_ia5 (v : rview) : Z := verdict 6 (rv_ian_ext v) (tagged_not_ia5 6 (rv_ian v)).
+Definition r_san_empty_name (v : rview) : Z := verdict 6 (rv_san_ext v) (has_empty_name (rv_san v)).
+Definition r_ian_empty_name (v : rview) : Z := verdict 6 (rv_ian_ext v) (has_empty_name (rv_ian v)).
+
+Definition all_raw_lints (v : rview) : list Z :=
+  [r_san_dns_not_ia5 v; r_ian_dns_not_ia5 v; r_san_uri_not_ia5 v; r_ian_uri_not_ia5 v; r_san_empty_name v; r_ian_empty_name v].
